@@ -159,3 +159,61 @@ func VerifH_C10_EncForkJoin(which, w, h, n int) {
 		verifapi.Cover(len(td) >= 16, "parallel cross-colour search")
 	}
 }
+
+// vStubAddThresh stands in for histogramAddThresh (floating-point entropy): the cost of putting tile b into
+// cluster a is |a.binID - b.binID|, accepted when below the running best.
+func vStubAddThresh(a, b *Histogram, costThreshold float64) (float64, bool) {
+	d := int(a.binID) - int(b.binID)
+	if d < 0 {
+		d = -d
+	}
+	if float64(d) < costThreshold {
+		return float64(d), true
+	}
+	return 0, false
+}
+
+func vRemapRun(n, clusters, pattern, procs int) []uint16 {
+	verifapi.Procs(procs)
+	orig := make([]*Histogram, n)
+	for i := range orig {
+		empty := false
+		switch pattern {
+		case 0:
+			empty = i%3 == 1
+		case 1:
+			empty = i%(n/8+1) == 0 && i > 0 // includes chunk starts for several worker counts
+		case 2:
+			empty = i%4 != 3
+		}
+		if empty {
+			continue
+		}
+		h := NewHistogram(0)
+		h.binID = uint16((i*7 + i/5) % clusters)
+		h.bitCost = 1e9
+		h.Literal[i%256] = 1
+		orig[i] = h
+	}
+	set := &HistoSet{}
+	for k := 0; k < clusters; k++ {
+		h := NewHistogram(0)
+		h.binID = uint16(k)
+		set.histos = append(set.histos, h)
+	}
+	symbols := make([]uint16, n)
+	histogramRemap(orig, set, symbols)
+	return symbols
+}
+
+// VerifH_C12_RemapSplit: histogramRemap (tile -> cluster assignment, tiles split over GOMAXPROCS workers,
+// empty tiles inheriting their predecessor's cluster) assigns the same symbols for GOMAXPROCS=procs as
+// for GOMAXPROCS=1; concrete tile/cluster configuration, entropy cost replaced by vStubAddThresh.
+func VerifH_C12_RemapSplit(n, clusters, pattern, procs int) {
+	a := vRemapRun(n, clusters, pattern, 1)
+	b := vRemapRun(n, clusters, pattern, procs)
+	for i := range a {
+		verifapi.Assert(a[i] == b[i], "same cluster for every tile (empty tiles included) whatever the worker count")
+	}
+	verifapi.Cover(n >= 64 && procs > 1, "parallel assignment with several workers")
+}
